@@ -624,12 +624,19 @@ func (g *Prog) Stmt(d int) []*gt.T {
 		out = append(out, g.simple(2))
 	case k == 6 || k == 7:
 		g.push() // scope of the if statement itself (conditions)
-		t := gt.If(g.cond(), g.Block(1+r.Intn(2), d-1)...)
+		// one block in six is empty: `if c {}` still ends the chain when c holds
+		bl := func() int {
+			if r.Intn(6) == 0 {
+				return 0
+			}
+			return 1 + r.Intn(2)
+		}
+		t := gt.If(g.cond(), g.Block(bl(), d-1)...)
 		for n := r.Intn(3); n > 0; n-- {
-			t.Elif(g.cond(), g.Block(1+r.Intn(2), d-1)...)
+			t.Elif(g.cond(), g.Block(bl(), d-1)...)
 		}
 		if r.Intn(2) == 0 {
-			t.ElseDo(g.Block(1+r.Intn(2), d-1)...)
+			t.ElseDo(g.Block(bl(), d-1)...)
 		}
 		g.pop()
 		out = append(out, t)
@@ -789,7 +796,7 @@ func (g *Prog) forIn(d int) *gt.T {
 	wasProtected := g.protected[v]
 	g.protected[v] = true
 	g.loopDepth++
-	body := g.stmtsIn(1+r.Intn(3), d-1)
+	body := g.stmtsIn(r.Intn(4), d-1)
 	g.loopDepth--
 	g.protected[v] = wasProtected
 	g.pop()
